@@ -235,12 +235,13 @@ var scribblePool = sync.Pool{New: func() interface{} { b := make([]byte, 1<<16);
 // ---- reader configurations
 
 type rcfg struct {
-	Conc    int   `json:"conc"`
-	WriteTo bool  `json:"writeto"`
-	Sizes   []int `json:"sizes,omitempty"`   // cyclic Read buffer sizes
-	Src     []int `json:"src,omitempty"`     // fragmentation of the compressed source
-	EOFWith bool  `json:"eofwith,omitempty"` // the source returns its last bytes together with io.EOF
-	Seeker  bool  `json:"seeker,omitempty"`  // the source also implements io.Seeker (like bytes.Reader / os.File)
+	Conc      int   `json:"conc"`
+	WriteTo   bool  `json:"writeto"`
+	Sizes     []int `json:"sizes,omitempty"`     // cyclic Read buffer sizes
+	Src       []int `json:"src,omitempty"`       // fragmentation of the compressed source
+	EOFWith   bool  `json:"eofwith,omitempty"`   // the source returns its last bytes together with io.EOF
+	Seeker    bool  `json:"seeker,omitempty"`    // the source also implements io.Seeker (like bytes.Reader / os.File)
+	ZeroBurst int   `json:"zeroburst,omitempty"` // the source answers this many (0, nil) reads in a row before every chunk of data
 }
 
 func drawRcfg(t *rapid.T, bs int) rcfg {
@@ -269,7 +270,7 @@ type readResult struct {
 
 // readAll decodes z as configured. A clean end of stream is reported as Err == nil.
 func readAll(z []byte, rc rcfg, handler func(int)) readResult {
-	ss := &inst.SeekSource{Source: inst.Source{Data: z, Chunks: rc.Src, EOFWith: rc.EOFWith}}
+	ss := &inst.SeekSource{Source: inst.Source{Data: z, Chunks: rc.Src, EOFWith: rc.EOFWith, ZeroBurst: rc.ZeroBurst}}
 	src := &ss.Source
 	var rdr io.Reader = src
 	if rc.Seeker {
@@ -324,6 +325,10 @@ func readAll(z []byte, rc rcfg, handler func(int)) readResult {
 			return res
 		}
 		res.Out = append(res.Out, buf[:n]...)
+		// the caller owns its buffer again: overwrite what was returned (a Reader must not keep using it)
+		for k := 0; k < n; k++ {
+			buf[k] = 0x5A
+		}
 		if err != nil {
 			res.Consumed, res.Size = src.Consumed(), r.Size()
 			if errors.Is(err, io.EOF) && err == io.EOF {
